@@ -11,6 +11,8 @@ from __future__ import annotations
 import contextlib
 import io
 import itertools
+import shutil
+import tempfile
 
 import numpy as np
 
@@ -110,6 +112,10 @@ class Scenario:
             return
         lo, hi = self.sides_by_index(simu.mesh, cfg)
         unk = simu.Get_unknowns()
+        if cfg["bc"] == 3:
+            # variant 3 ("freebc"): the load alone, NO Dirichlet condition (well posed under a time scheme only)
+            self.load(simu, hi, unk, self.k(cfg))
+            return
         simu.add_dirichlet(lo, [0.0] * len(unk), unk)
         if cfg["bc"] == 0:
             self.load(simu, hi, unk, self.k(cfg))
@@ -283,11 +289,19 @@ class Scenario:
         elif op == "rebc":
             cfg["bc"] = {0: 1, 1: 2, 2: 0}.get(cfg["bc"], 0)
             self.apply_bc(simu, cfg)
+        elif op == "freebc":
+            # the conditions are cleared and only the load is entered again: nothing is prescribed any more. Admissible under a time
+            # scheme (the mass / capacity matrix regularises the step); under the elliptic algorithm the operation selects variant 0
+            cfg["bc"] = 3 if cfg["algo"][0] != "elliptic" else 0
+            self.apply_bc(simu, cfg)
         elif op == "algo":
             if cfg["algo"][0] == "elliptic":
                 cfg["algo"] = self.dyn_algo
             else:
                 cfg["algo"] = ("elliptic",)
+                if cfg["bc"] == 3:
+                    cfg["bc"] = 0  # a static problem needs its supports back
+                    self.apply_bc(simu, cfg)
             self.set_algo(simu, cfg)
         elif op == "dt":
             cfg["dt_alt"] = not cfg.get("dt_alt", False)
@@ -297,6 +311,17 @@ class Scenario:
                 simu.Solve()
             simu.Save_Iter()
             cfg["saved"].append(len(cfg["meshkeys"]) - 1)
+        elif op == "solve_savedisk":
+            # the same as "solve_save", the history then being written to disk (Save(folder), as a long computation does after a step):
+            # from there on the meshes of the history are files, read back when an iteration saved on another mesh is restored
+            with _quiet():
+                simu.Solve()
+            simu.Save_Iter()
+            cfg["saved"].append(len(cfg["meshkeys"]) - 1)
+            if "folder" not in live:
+                live["folder"] = tempfile.mkdtemp(prefix="c14_")
+            with _quiet():
+                simu.Save(live["folder"])
         elif op == "setiter0":
             if not cfg["saved"]:
                 return
@@ -336,6 +361,7 @@ class ElasticScn(Scenario):
     params0 = {"E": 2.0, "v": 0.3, "thickness": 0.7, "planeStress": True}
     alt = {"E": 3.5, "v": 0.1, "thickness": 1.2, "planeStress": False}
     model_ops = ["E", "v", "thickness", "planeStress", "E_field"]
+    extra_ops = ["freebc"]
     result_names = ["Wdef", "Svm", "Exx"]
 
     def make_model(self, cfg):
@@ -386,6 +412,7 @@ class ThermalScn(Scenario):
     params0 = {"k": 1.5, "c": 0.8, "thickness": 0.7}
     alt = {"k": 2.5, "c": 1.6, "thickness": 1.2}
     model_ops = ["k", "c", "thickness"]
+    extra_ops = ["freebc"]
     dyn_algo = ("parabolic", 0.1, 0.5)
     result_names = ["thermal"]
 
@@ -788,13 +815,20 @@ def cases(tier, seed):
                 out.append({"kind": "history", "scn": name, "ops": list(seq), "regime": "each"})
     if tier == "quick":
         # a restored earlier mesh of the history that is then changed in place: depth 4 over {solve+save, replace mesh, restore iteration 0, re-coordinate}
-        sub = ["solve_save", "replacemesh", "copymesh", "setiter0", "setcoord"]
-        for name in ("elastic", "thermal", "beam"):
-            for seq in itertools.product(sub, repeat=4):
-                if seq[0] == "solve_save" and (seq[1] in ("replacemesh", "copymesh") or seq[2] in ("replacemesh", "copymesh")) and "setiter0" in seq[2:]:
-                    out.append({"kind": "history", "scn": name, "ops": list(seq), "regime": "each"})
+        # the same histories with the history kept in memory (solve_save) and written to disk after every saved step (solve_savedisk)
+        for save in ("solve_save", "solve_savedisk"):
+            sub = [save, "replacemesh", "copymesh", "setiter0", "setcoord"]
+            for name in ("elastic", "thermal", "beam"):
+                for seq in itertools.product(sub, repeat=4):
+                    if seq[0] == save and (seq[1] in ("replacemesh", "copymesh") or seq[2] in ("replacemesh", "copymesh")) and "setiter0" in seq[2:]:
+                        out.append({"kind": "history", "scn": name, "ops": list(seq), "regime": "each"})
     for what in ("replace_mesh", "useTimoshenko"):
         out.append({"kind": "public", "what": what})
+    # the cross-section of a beam (a Mesh the beam hands out by reference): replaced through the public setter, moved in place
+    for dim in (2, 3):
+        for theory in ("euler", "timoshenko"):
+            for seq in itertools.product(SECTION_OPS, repeat=2):
+                out.append({"kind": "public", "what": "section_ops", "ops": list(seq), "dim": dim, "theory": theory})
     # one model shared by two simulations
     for name in ("elastic", "thermal", "elastic_trisot"):
         mops = [o for o in SCENARIOS[name]().model_ops if not o.endswith("_field")]
@@ -812,15 +846,22 @@ def describe(tier, seed):
                 f"re-entered conditions, algorithm switch, solve+save, restore iteration 0) of length {depth} with an observation (matrices, solve, results) "
                 f"after every operation, and of length {depth + 1 if tier == 'quick' else depth} with one observation at the end; caches are primed by an observation before the first operation. "
                 "Shared-model regime: all ordered pairs of parameter assignments on a model observed by two simulations, four observation patterns. "
+                f"Public beam operations: mesh replacement and theory switch through the public setters; every ordered pair of the {len(SECTION_OPS)} operations on the cross-section of a beam "
+                "(section = another section mesh assigned, section_translate / section_rotate / section_scale = the section mesh handed out by beam.section moved in place by Translate, Rotate(90), coordinate assignment) "
+                "x {Euler-Bernoulli, Timoshenko} x {2D, 3D}, stiffness matrix and solution compared with a new beam on a new section mesh after every operation. "
                 "non-trivial = the observed matrices changed along the history; distinct = fingerprint of all observations",
         "exhaustive": True,
-        "bound": f"depth {depth} (observe after each op) / {depth + 1 if tier == 'quick' else depth} (observe at the end)" + ("; depth 3 over 5 mesh / restore operations; depth 4 over {solve+save, replace mesh, restore, re-coordinate} for histories that save, replace the mesh and restore" if tier == "quick" else ""),
-        "alphabet": {name: len(SCENARIOS[name]().ops()) for name in QUICK_SCN},
+        "bound": f"depth {depth} (observe after each op) / {depth + 1 if tier == 'quick' else depth} (observe at the end)" + ("; depth 3 over 5 mesh / restore operations; depth 4 over {solve+save, replace mesh, copy mesh, restore, re-coordinate} for histories that save, replace the mesh and restore, "
+                                                                                                                   "each with the history kept in memory (solve_save) and written to disk by Save(folder) after every saved step (letter solve_savedisk: the meshes of the history are then files)"
+                                                                                                                   "; depth 2 over the 4 cross-section operations of a beam" if tier == "quick" else "; depth 2 over the 4 cross-section operations of a beam"),
+        "alphabet": dict({name: len(SCENARIOS[name]().ops()) for name in QUICK_SCN}, beam_section_ops=len(SECTION_OPS)),
         "assumptions": ["differential oracle: the fresh simulation is given the live coordinates, the live state (u, v, a through the public getters) and the harness's record of parameters/conditions",
                         "conditions are re-entered after mesh replacement / iteration restore (the mesh setter documents that it re-initialises them) and after every motion of the nodes (distributed loads are integrated when entered)",
                         "phase-field: only the displacement system is compared (the damage system depends on a private history field)",
                         "inelastic: loads stay below the yield stress (a fresh simulation cannot be handed internal variables); observed through Solve() and Svm",
                         "weakforms: no mesh replacement (the model owns a Field bound to the element group); a changed closure coefficient is followed by the documented Need_Update()",
+                        "cross-section of a beam: the fresh beam is given a new section mesh with the live section's shape and coordinates; only motions that keep the section legal for the constructor (principal axes along x, y) are applied",
+                        "solve_savedisk writes to a temporary folder removed at the end of the case; an exception of the live simulation during an operation or an observation is a violation (check `exception`, keyed by the history)",
                         "tolerance 1e-11 relative on matrices, 1e-8 on solutions and results"],
     }
 
@@ -847,6 +888,16 @@ def _compare(obs_live, obs_fresh, key, where, tolM=1e-11, tolS=1e-8):
     return v
 
 
+def _raised(err, key, where):
+    """the property promises matrices, a solution and results after every history: an exception of the LIVE simulation is a violation
+    (same check name and `type` factor as the runner gives an escaping exception, plus the history that names the failing input)"""
+    import traceback
+
+    tb = traceback.extract_tb(err.__traceback__)
+    at = f"{tb[-1].filename.split('/')[-1]}:{tb[-1].lineno} in {tb[-1].name}" if tb else "?"
+    return viol("exception", f"{where}: {type(err).__name__}: {str(err)[:160] or '(no message)'} [{at}]", type=type(err).__name__, **key)
+
+
 def _fresh_obs(scn, cfg, state, solve=True):
     import copy
 
@@ -868,21 +919,33 @@ def _run_history(case):
     first = scn.observe(simu, cfg)
     fps.append(fp(*[first[k] for k in sorted(first)]))
     done = []
-    for i, op in enumerate(case["ops"]):
-        done.append(op)
-        scn.apply(simu, cfg, op, live)
-        ntr += 1
-        last = i == len(case["ops"]) - 1
-        if case["regime"] == "each" or last:
-            state = scn.get_state(simu)
-            fresh = _fresh_obs(scn, cfg, state)
-            obs = scn.observe(simu, cfg)
-            ntr += 1
-            fps.append(fp(*[obs[k] for k in sorted(obs)]))
-            vv = _compare(obs, fresh, dict(key, ops="+".join(done)), f"after {done}")
-            if vv:
-                v += vv
+    try:
+        for i, op in enumerate(case["ops"]):
+            done.append(op)
+            try:
+                scn.apply(simu, cfg, op, live)
+            except Exception as err:
+                v.append(_raised(err, dict(key, ops="+".join(done)), f"operation {op} after {done[:-1]}"))
                 break
+            ntr += 1
+            last = i == len(case["ops"]) - 1
+            if case["regime"] == "each" or last:
+                state = scn.get_state(simu)
+                fresh = _fresh_obs(scn, cfg, state)
+                try:
+                    obs = scn.observe(simu, cfg)
+                except Exception as err:
+                    v.append(_raised(err, dict(key, ops="+".join(done)), f"observation (matrices, solve, results) after {done}"))
+                    break
+                ntr += 1
+                fps.append(fp(*[obs[k] for k in sorted(obs)]))
+                vv = _compare(obs, fresh, dict(key, ops="+".join(done)), f"after {done}")
+                if vv:
+                    v += vv
+                    break
+    finally:
+        if "folder" in live:
+            shutil.rmtree(live["folder"], ignore_errors=True)
     return {"violations": v[:4], "fingerprint": fp(case["scn"], case["regime"], fps), "nontrivial": len(set(fps)) > 1, "transitions": ntr}
 
 
@@ -929,12 +992,111 @@ def _run_shared(case):
     return {"violations": v[:4], "fingerprint": fp(case["scn"], case["pattern"], fps), "nontrivial": len(set(fps)) > 1, "transitions": ntr}
 
 
+SECTION_OPS = ["section", "section_translate", "section_rotate", "section_scale"]
+
+
+def _section_zoo(shape):
+    """cross-sections as template meshes (no gmsh), centred on their centre of gravity, symmetric about both axes: a b x h rectangle and an
+    I (flanges over the whole width, web of a third of it) whose shear correction factors are far from the rectangle's"""
+    if shape == "rect":
+        zm = Z.template_2d("QUAD4", (2, 3), size=(0.10, 0.16))
+        coords, groups = zm.coords.copy(), dict(zm.groups)
+    else:
+        zm = Z.template_2d("QUAD4", (6, 6), size=(0.12, 0.18))
+        con = zm.groups["QUAD4"]
+        c = zm.coords[con].mean(axis=1)
+        flange = (c[:, 1] < 0.03) | (c[:, 1] > 0.15)
+        web = np.abs(c[:, 0] - 0.06) < 0.02
+        con = con[flange | web]
+        used = np.unique(con)
+        renum = -np.ones(zm.coords.shape[0], dtype=int)
+        renum[used] = np.arange(used.size)
+        coords, groups = zm.coords[used].copy(), {"QUAD4": renum[con]}
+    coords[:, :2] -= 0.5 * (coords[:, :2].min(axis=0) + coords[:, :2].max(axis=0))
+    return Z.ZooMesh(coords, groups, {}, "section_" + shape, Z.compute_boundary(coords, groups))
+
+
+def _run_public_section(case):
+    """E2 over the public operations on the cross-section of a beam, observation (stiffness matrix, solution) after every operation:
+    `section` = another section assigned through the setter (rectangle <-> I), `section_translate` = beam.section.Translate(...) (a beam
+    centres its section on its centre of gravity), `section_rotate` = beam.section.Rotate(90) (the section laid flat),
+    `section_scale` = beam.section.coord = stretched coordinates.  Oracle: a new beam built on a new section mesh with the
+    live section's shape and coordinates, in a new simulation of the same theory."""
+    from EasyFEA import Models, Simulations
+    from EasyFEA.Geoms import Line, Point
+
+    dim, theory = case["dim"], case["theory"]
+    key = dict(scn="beam", regime="public", theory=theory, dim=dim)
+
+    def build(shape, coords=None):
+        zm = _section_zoo(shape)
+        if coords is not None:
+            zm = Z.ZooMesh(coords, zm.groups, {}, zm.name, zm.boundary)
+        beam = Models.Beam.Isotropic(dim, Line(Point(0, 0), Point(1.2, 0)), zm.build(), 200.0, 0.3)
+        mesh = _mesh("S2")
+        for g in mesh.Get_list_groupElem():
+            g.Set_Tag(g.nodes, beam.name)
+        with _quiet():
+            simu = Simulations.Beam(mesh, Models.Beam.BeamStructure([beam]), useTimoshenko=(theory == "timoshenko"))
+        return simu, beam
+
+    def observe(simu):
+        x = np.asarray(simu.mesh.coord)[:, 0]
+        lo, hi = np.where(np.abs(x - x.min()) < 1e-9)[0], np.where(np.abs(x - x.max()) < 1e-9)[0]
+        unk = simu.Get_unknowns()
+        simu.Bc_Init()
+        simu.add_dirichlet(lo, [0.0] * len(unk), unk)
+        if dim == 2:
+            simu.add_neumann(hi, [0.1, 0.4], ["x", "y"])
+        else:
+            simu.add_neumann(hi, [0.1, 0.4, 0.25, 0.05], ["x", "y", "z", "rx"])
+        obs = {"beam.K": simu.Get_K_C_M_F()[0].toarray()}
+        with _quiet():
+            obs["solve.u"] = np.array(simu.Solve(), dtype=float)
+        return obs
+
+    simu, beam = build("rect")
+    shape = "rect"
+    first = observe(simu)
+    fps, v, ntr, done = [fp(*[first[k] for k in sorted(first)])], [], 0, []
+    for op in case["ops"]:
+        done.append(op)
+        k = dict(key, ops="+".join(done))
+        try:
+            with _quiet():
+                if op == "section":
+                    shape = "I" if shape == "rect" else "rect"
+                    beam.section = _section_zoo(shape).build()
+                elif op == "section_translate":
+                    beam.section.Translate(0.02, -0.03)
+                elif op == "section_rotate":
+                    beam.section.Rotate(90.0)
+                else:
+                    sec = beam.section
+                    sec.coord = sec.coord * np.array([1.3, 0.8, 1.0])
+            ntr += 1
+            fresh = observe(build(shape, np.array(beam.section.coord, dtype=float))[0])
+            obs = observe(simu)
+            ntr += 1
+        except Exception as err:
+            v.append(_raised(err, k, f"beam ({dim}D, {theory}): {op} after {done[:-1]}"))
+            break
+        fps.append(fp(*[obs[kk] for kk in sorted(obs)]))
+        v += _compare(obs, fresh, k, f"beam ({dim}D, {theory}) after {done} on its cross-section")
+        if v:
+            break
+    return {"violations": v[:4], "fingerprint": fp("public_section", dim, theory, fps), "nontrivial": len(set(fps)) > 1, "transitions": ntr}
+
+
 def _run_public(case):
     """operations of the beam simulation that the history scenarios can only carry out with a private helper: replacing the mesh through the
-    public setter (a plain line mesh, as a user has it), and switching the beam theory through its public parameter"""
+    public setter (a plain line mesh, as a user has it), and switching the beam theory through its public parameter; operations on the
+    cross-section of a beam (`section_ops`)"""
     from EasyFEA import Models, Simulations
     from EasyFEA.Geoms import Domain, Line, Point
 
+    if case["what"] == "section_ops":
+        return _run_public_section(case)
     what = case["what"]
     key = dict(scn="beam", regime="public", what=what)
     v = []
